@@ -107,6 +107,22 @@ def freeTable (a : Archetype) (tid : Nat) : Archetype :=
     relationTables := a.relationTables.map fun m => m.mapVals fun v => (v.remove tid).1
     targetTables := a.targetTables.mapVals fun v => (v.remove tid).1 }
 
+/-- `removeTableRelations`: remove table `tid` (with per-column `targets`) from the lookups of
+    its own targets. -/
+def removeTableRelations (a : Archetype) (tid : Nat) (targets : List Ent) : Archetype :=
+  let step (a : Archetype) (i : Nat) : Archetype :=
+    if !(a.isRel.getD i false) then a else
+    let target := targets.getD i Ent.zero
+    let rels := a.relationTables.getD i []
+    let rels' := match AL.find? rels target.id with
+      | some ts => AL.insert rels target.id (ts.remove tid).1
+      | none => rels
+    let tt := match AL.find? a.targetTables target.id with
+      | some ts => AL.insert a.targetTables target.id (ts.remove tid).1
+      | none => a.targetTables
+    { a with relationTables := a.relationTables.set i rels', targetTables := tt }
+  (List.range a.comps.length).foldl step a
+
 /-- `FreeAllTables` (archetype side). -/
 def freeAllTables (a : Archetype) : Archetype :=
   { a with
